@@ -298,5 +298,18 @@ func Families(n int) []Family {
 		}
 	}
 	add("auto-remclique3", sp)
+	// k Auto states without relations plus one plain state (last); and the
+	// variant where every Auto state Requires the plain one
+	sp = make(Spec, n)
+	for i := 0; i < n-1; i++ {
+		sp[i].Auto = true
+	}
+	add("autos-plus-plain", sp)
+	sp = make(Spec, n)
+	for i := 0; i < n-1; i++ {
+		sp[i].Auto = true
+		sp[i].Require = bit(n - 1)
+	}
+	add("autos-require-plain", sp)
 	return out
 }
